@@ -19,11 +19,13 @@ CHECK_DEADLOCK FALSE
 
 
 def model(c, invs, twins, pairs=False, tag=""):
-    c.model_check("CorsMC", CORS_CFG % dict(bug="none", pairs="TRUE" if pairs else "FALSE", invs=invs),
-                  tag="CorsMC_%s%s" % (c.pid, tag), timeout=3000)
+    thunks = [lambda: c.model_check("CorsMC", CORS_CFG % dict(bug="none", pairs="TRUE" if pairs else "FALSE", invs=invs),
+                                    tag="CorsMC_%s%s" % (c.pid, tag), timeout=3000, workers=8)]
     for bug, expect in twins:
-        c.negative_twin("CorsMC", CORS_CFG % dict(bug=bug, pairs="TRUE" if pairs else "FALSE", invs=invs),
-                        tag="CorsMC_neg_%s" % bug, expect=expect, timeout=1200)
+        thunks.append(lambda bug=bug, expect=expect: c.negative_twin(
+            "CorsMC", CORS_CFG % dict(bug=bug, pairs="TRUE" if pairs else "FALSE", invs=invs),
+            tag="CorsMC_neg_%s" % bug, expect=expect, timeout=1200, workers=4))
+    c.parallel(thunks)
 
 
 def describe(e):
